@@ -20,6 +20,7 @@ Not modelled: streams with gaps (the `RuntimeError` branch of `_synchronize_metr
 blocks there.
 -/
 import Frequenz.Model.Prelude
+import Frequenz.Model.Fallback
 import Frequenz.Extracted.Evaluator
 
 namespace Evaluator
@@ -197,5 +198,122 @@ def run3 (resync : Bool) (P1 P2 P3 : Phase) (es : List Ev3) : St3 :=
 
 /-- what the current source does (regenerated from `_formula_engine.py`) -/
 def sourceResyncs : Bool := Extracted.Evaluator.threePhaseResyncs
+
+/-! ### Engine whose terms may have a fallback (`push_metric(..., fallback=…)`)
+
+Composition of the evaluator with the `MetricFetcher` model of `Model/Fallback.lean` (C19).  Term `i` is a
+`Fallback.St` (primary receiver queue, lazily started fallback receiver, `_latest_fallback_sample`); `hasFb i` says
+whether the term was built with a fallback.  One `fetch_next()` of a term with a fallback is `Fallback.round`
+(`_fetch_next` / `fetch_next_with_fallback` / `_synchronize_and_fetch_fallback`), of a plain term a `receive()` on the
+primary queue.
+
+`apply()` is NOT atomic here: the moment at which a term's `fetch_next()` completes decides when its fallback is
+`start()`ed, and the fallback receiver only sees what its source emits afterwards.  So the events are the completions
+of the individual `fetch_next()` calls: `fetch i c` (a no-op unless the evaluator is waiting for term `i` and the
+data the call needs has been delivered).  The evaluator's control state:
+  `cur i = none`          the `fetch_next()` task of term `i` created by the running `apply()` has not completed;
+  `sync = some t`         first run only: `_synchronize_metric_timestamps` is fetching the terms whose sample is older
+                          than `t = max` of the first timestamps (in any order — the code's order is the iteration
+                          order of a `set` of tasks);
+when every term holds a sample (stamped `t` in the first run) the formula is evaluated on `fetcher.value` of every
+term, the sample is emitted in the same step (no suspension point in between) and the next `apply()` starts.  In the
+steady state the output is stamped with the timestamp of an arbitrary term (`c % n`).
+Not modelled: closed channels (C19's subject; `pClosed`/`fClosed` stay false), and the `RuntimeError` branch of
+the synchronisation (a sample stamped later than `t`): the model blocks there. -/
+
+inductive EvF where
+  | dP (i : Nat) (s : Fallback.Sample)    -- the primary stream of term `i` delivers
+  | dF (i : Nat) (s : Fallback.Sample)    -- the fallback source of term `i` emits (seen only once started)
+  | fetch (i : Nat) (c : Nat)             -- the pending `fetch_next()` of term `i` completes
+deriving DecidableEq, Repr
+
+structure FSt where
+  terms : Nat → Fallback.St := fun _ => {}
+  cur : Nat → Option Fallback.Sample := fun _ => none   -- `fetcher.value` fetched by the running `apply()`
+  firstRun : Bool := true                               -- `_first_run`
+  sync : Option Int := none                             -- `latest_ts` while synchronising
+  out : List Sample := []                               -- emitted samples, oldest first
+
+def FSt.init : FSt := {}
+
+/-- One `fetch_next()` of a term: the new fetcher state and the returned sample; `none` = cannot complete yet. -/
+def fetchTerm (fb : Bool) (τ : Fallback.St) : Option (Fallback.St × Fallback.Sample) :=
+  if fb then
+    match Fallback.round τ with
+    | some τ' =>
+      match τ'.out.getLast? with
+      | some (.sample s) => some (τ', s)
+      | _ => none
+    | none => none
+  else
+    match τ.pq with
+    | p :: pr => some ({ τ with pq := pr, out := τ.out ++ [.sample p] }, p)
+    | [] => none
+
+/-- the evaluator is waiting for a `fetch_next()` of term `i` -/
+def permitted (σ : FSt) (i : Nat) : Bool :=
+  match σ.cur i with
+  | none => σ.sync.isNone
+  | some s =>
+    match σ.sync with
+    | some t => decide (s.ts < t)
+    | none => false
+
+def curTs (cur : Nat → Option Fallback.Sample) (i : Nat) : Int :=
+  match cur i with
+  | some s => s.ts
+  | none => 0
+
+def curVal (cur : Nat → Option Fallback.Sample) (i : Nat) : Option Rat :=
+  match cur i with
+  | some s => s.val
+  | none => none
+
+def allFetched (n : Nat) (cur : Nat → Option Fallback.Sample) : Bool :=
+  (List.range n).all (fun i => (cur i).isSome)
+
+/-- `max(metrics_by_ts)` over the first fetched samples -/
+def latestCur (n : Nat) (cur : Nat → Option Fallback.Sample) : Int :=
+  (List.range n).foldl (fun m i => max m (curTs cur i)) (curTs cur 0)
+
+def allCurAt (n : Nat) (t : Int) (cur : Nat → Option Fallback.Sample) : Bool :=
+  (List.range n).all (fun i => curTs cur i == t)
+
+/-- evaluate the steps on `fetcher.value` of every term, emit, start the next `apply()` -/
+def emit (n : Nat) (f : List (Option Rat) → Option Rat) (t : Int) (σ : FSt) : FSt :=
+  { σ with cur := fun _ => none, firstRun := false, sync := none,
+           out := σ.out ++ [⟨t, f ((List.range n).map (curVal σ.cur))⟩] }
+
+/-- what `apply()` does once a `fetch_next()` has completed -/
+def advance (n : Nat) (f : List (Option Rat) → Option Rat) (c : Nat) (σ : FSt) : FSt :=
+  if allFetched n σ.cur then
+    if σ.firstRun then
+      let t := match σ.sync with
+        | some t => t
+        | none => latestCur n σ.cur
+      if allCurAt n t σ.cur then emit n f t σ else { σ with sync := some t }
+    else emit n f (curTs σ.cur (c % n)) σ
+  else σ
+
+def tryFetch (n : Nat) (f : List (Option Rat) → Option Rat) (hasFb : Nat → Bool) (c : Nat) (σ : FSt) (i : Nat) :
+    Option (FSt × Fallback.Sample) :=
+  if i < n ∧ permitted σ i = true then
+    match fetchTerm (hasFb i) (σ.terms i) with
+    | some (τ', s) =>
+      some (advance n f c { σ with terms := fun j => if j = i then τ' else σ.terms j,
+                                   cur := fun j => if j = i then some s else σ.cur j }, s)
+    | none => none
+  else none
+
+def stepF (n : Nat) (f : List (Option Rat) → Option Rat) (hasFb : Nat → Bool) (σ : FSt) : EvF → FSt
+  | .dP i s => { σ with terms := fun j => if j = i then Fallback.step (σ.terms j) (.dP s) else σ.terms j }
+  | .dF i s => { σ with terms := fun j => if j = i then Fallback.step (σ.terms j) (.dF s) else σ.terms j }
+  | .fetch i c =>
+    match tryFetch n f hasFb c σ i with
+    | some (σ', _) => σ'
+    | none => σ
+
+def runF (n : Nat) (f : List (Option Rat) → Option Rat) (hasFb : Nat → Bool) (es : List EvF) : FSt :=
+  es.foldl (stepF n f hasFb) FSt.init
 
 end Evaluator
